@@ -723,6 +723,10 @@ func initSchema() {
 
 	// TODO(natasha41575): Accept proto-formatted schema files
 	if customSchema != nil {
+		// the custom schema is added on top of the default built-in one, always: whether
+		// the built-in definitions are visible must not depend on what ran earlier
+		parseBuiltinSchema(kubernetesOpenAPIDefaultVersion)
+		globalSchema.defaultBuiltInSchemaParseStatus = schemaParsed
 		err := parse(customSchema, JsonOrYaml)
 		if err != nil {
 			panic(fmt.Errorf("invalid schema file: %w", err))
